@@ -32,8 +32,11 @@ def shift_refs(x, pid, k):
 
 
 def run(ctx, res):
-    cases, obs, verdicts = pipeprop.run(ctx, res, "C08", PROFILE, n_quick=400, n_thorough=6000,
-                                        probe_ids=("F09", "F16", "F39"), l2_steps=True)
+    import scenarios
+    fam = [] if ctx.replay else scenarios.pick(scenarios.family_a(), 450 if ctx.tier == "quick" else 10 ** 6, ctx.seed)
+    cases, obs, verdicts = pipeprop.run(ctx, res, "C08", PROFILE, n_quick=300, n_thorough=6000,
+                                        probe_ids=("F09", "F16", "F39"), l2_steps=True, extra_cases=fam)
+    res.coverage["scenario_grid"] = {"family": "A (prefix x alias x verb x follower)", "cases": len(fam)}
     # alias oracle
     tried = unblocked = 0
     for c, o in zip(cases, obs):
